@@ -9,8 +9,10 @@
   Trees:    comma list of tokens in prefix order
             tree = `I` cond tree tree | `R` val | `C` call | `S` call
             cond = `T` call | `E` call val | `N` cond
-            call = `c<helper>` <argc> arg…        arg = `U` (url) | `H` (host) | val
-  Entry:    `-` absent · `x` defined but not a function · tree
+            call = `c<helper>` <argc> arg…        arg = `U` (url) | `H` (host) | val | `D`piece+piece…
+            piece = `l<hex>` literal · `U` · `H` · `P<i>` (i-th dot-separated part of host)
+  Entry:    [<form>`:`] (`-` absent · `x` defined but not a function · tree); form = a constructor name of
+            `DeclForm` (default `funDecl`)
 
   Verbs:
     helper <name> <args> <env…>                    → ok <val> | throw | unmodelled
@@ -102,8 +104,19 @@ def decEnv (t m mx : String) : Option Env := do
 
 /-! tree parser (prefix notation, fuel = number of tokens) -/
 
+def decPiece (t : String) : Option Piece :=
+  match t.toList with
+  | ['U'] => some .url
+  | ['H'] => some .host
+  | 'l' :: r => (bytesOfHex (String.ofList r)).map Piece.lit
+  | 'P' :: r => (String.ofList r).toNat?.map Piece.label
+  | _ => none
+
 def decArg (t : String) : Option Arg :=
-  if t = "U" then some .url else if t = "H" then some .host else (decVal? t).map Arg.lit
+  if t = "U" then some .url else if t = "H" then some .host
+  else match t.toList with
+    | 'D' :: r => ((String.ofList r).splitOn "+").mapM decPiece |>.map Arg.cat
+    | _ => (decVal? t).map Arg.lit
 
 def takeArgs : Nat → List String → Option (List Arg × List String)
   | 0, ts => some ([], ts)
@@ -153,6 +166,17 @@ def decTree : Nat → List String → Option (Tree × List String)
     else none
   | _ + 1, [] => none
 
+def formOfName : String → Option DeclForm
+  | "funDecl" => some .funDecl | "varFun" => some .varFun | "varNamedFun" => some .varNamedFun
+  | "varArrow" => some .varArrow | "assign" => some .assign | "thisAssign" => some .thisAssign
+  | "defineProp" => some .defineProp | "blockVar" => some .blockVar | "blockAssign" => some .blockAssign
+  | "iifeAssign" => some .iifeAssign | "iifeThis" => some .iifeThis | "iifeGlobalArg" => some .iifeGlobalArg
+  | "evalVar" => some .evalVar | "constFun" => some .constFun | "letFun" => some .letFun
+  | "constArrow" => some .constArrow | "letArrow" => some .letArrow | "letLater" => some .letLater
+  | "blockLet" => some .blockLet | "blockConst" => some .blockConst | "iifeLocalFun" => some .iifeLocalFun
+  | "iifeLocalVar" => some .iifeLocalVar | "evalLet" => some .evalLet
+  | _ => none
+
 def decEntry (s : String) : Option Entry :=
   if s = "-" then some .absent
   else if s = "x" then some .notFunction
@@ -161,6 +185,16 @@ def decEntry (s : String) : Option Entry :=
     match decTree (ts.length + 1) ts with
     | some (t, []) => some (.fn t)
     | _ => none
+
+/-- `[form:]entry` -/
+def decEntryF (s : String) : Option (DeclForm × Entry) :=
+  match s.splitOn ":" with
+  | [e] => (decEntry e).map fun x => (DeclForm.funDecl, x)
+  | [f, e] => do
+    let form ← formOfName f
+    let x ← decEntry e
+    pure (form, x)
+  | _ => none
 
 def encAnswer : Answer → String
   | .ok s => s!"ok {hexOfBytes s}"
@@ -198,9 +232,9 @@ def strictClass (s : Bytes) : String :=
     | some _ => "unknown-keyword-direct"
 
 def evalWith (spec : Bool) (fn fnEx url hostArg urlHost t m mx : String) : String :=
-  match decEntry fn, decEntry fnEx, bytesOfHex url, bytesOfHex hostArg, bytesOfHex urlHost, decEnv t m mx with
-  | some e1, some e2, some u, some ha, some uh, some env =>
-    match load { fn := e1, fnEx := e2 } with
+  match decEntryF fn, decEntryF fnEx, bytesOfHex url, bytesOfHex hostArg, bytesOfHex urlHost, decEnv t m mx with
+  | some (f1, e1), some (f2, e2), some u, some ha, some uh, some env =>
+    match load { fn := e1, fnEx := e2, fnForm := f1, fnExForm := f2 } with
     | .error .missing => "load missing"
     | .error .ambiguous => "load ambiguous"
     | .ok tree =>
